@@ -53,7 +53,7 @@ def r1_provenance(ctx, res):
     st = [r for r in v.rows if r[0] == 'store' and r[3] == src_ctx]
     chk('sources', bool(st), 'expand-side source synsets are no longer the synsets of the expand lexicons (self._wordnet._expanded_ids) that share '
                              f'this synset\'s ILI: {sorted({c for r in v.rows for c in r[3][:1]})}')
-    chk('source-map', len(st) == 1 and st[0][1] == want and st[0][2] == frozenset({f"$1[{fs['synsets.rowid']}] not in (self._id, NON_ROWID)"}),
+    chk('source-map', len(st) == 1 and st[0][1] == want and st[0][2] == frozenset({f"$1[{fs['synsets.rowid']}] != self._id", f"$1[{fs['synsets.rowid']}] != NON_ROWID"}),
         f'the map of expand sources is no longer {{rowid: synset id}} over the find_synsets rows, excluding exactly this synset and the '
         f'placeholder rowid: {[(r[1], sorted(r[2])) for r in st]}')
     rel_ctx = 'for get_synset_relations(set(#1), args, self._wordnet._expanded_ids)'
@@ -125,7 +125,17 @@ def r3_order_and_switch(ctx, res):
     ok = len(init) == 1 and len(sel) == 1 and len(sel[0][2]) == 1
     if ok:
         spec = next(iter(sel[0][2]))
-        ok = f'find_lexicons(lexicon={spec})' in sel[0][1] and spec.startswith('expand if expand is not None else ') and '_to_lexicon' in sel[0][1]
+        # the specifier is `expand` itself whenever one was given (however the conditional is nested)
+        from ..effects import decision_leaves
+        try:
+            import re as _re2
+            leaves = decision_leaves(ast.parse(_re2.sub(r'\$(\d+)', r'_loop_\1', _re2.sub(r'#(\d+)', r'_cell_\1', spec)), mode='eval').body)
+        except SyntaxError:
+            leaves = []
+        given = [v for cs, v in leaves if 'expand is not None' in cs]
+        other = [v for cs, v in leaves if 'expand is not None' not in cs and 'expand is None' not in cs]
+        ok = f'find_lexicons(lexicon={spec})' in sel[0][1] and bool(given) and all(v == 'expand' for v in given) and not other \
+            and '_to_lexicon' in sel[0][1]
     ids = w.find('store', 'self._expanded_ids = tuple((_1._id for _1 in self._expanded))')
     if not ok or not ids or ids[0][2]:
         res.find(key, w.loc(), "Wordnet.__init__ no longer derives _expanded_ids from the lexicons selected by a non-empty expand specifier "
